@@ -369,9 +369,7 @@ void harness(void) {
   if (nvsel == 0 && nksel == 0) VWITNESS("replace by a fresh key object and a fresh value");
   if (nvsel == 1) VWITNESS("replace by the very value object already stored under the key");
   if (nksel == 1) VWITNESS("replace by the stored key object itself");
-#if PPOS > 1
   if (nvsel == 2) VWITNESS("replace by a value object that is also stored under another key");
-#endif
 #endif
 #elif defined(ALLOC_FAIL)
   VWITNESS("insert of a new key whose node allocation fails");
